@@ -85,13 +85,15 @@ type rop struct {
 type ssplit struct{ id, cursor int }
 
 type sreader struct {
-	splits   []*ssplit
-	atRead   chan struct{}
-	cmd      chan [][2]int
-	closed   chan struct{}
-	assigned chan struct{}
-	log      *[]string // Gallina steps, appended on the loop goroutine only
-	nread    *int
+	splits      []*ssplit
+	atRead      chan struct{}
+	cmd         chan [][2]int
+	closed      chan struct{}
+	assigned    chan struct{}
+	atCkpt      chan struct{}
+	ckptRelease chan struct{}
+	log         *[]string // Gallina steps, appended on the loop goroutine only
+	nread       *int
 }
 
 func recBytes(s, i int) []byte { return []byte(fmt.Sprintf("%d:%d", s, i)) }
@@ -159,7 +161,18 @@ func (r *sreader) AssignSplits(splits []*workerpb.SourceSplit) error {
 	return nil
 }
 
+// Checkpoint parks at a gate first: the harness keeps it there for a moment and offers a read meanwhile. The
+// event loop of the real runner is blocked in this very call, so no read can happen; a runner that takes the
+// snapshot off the loop goroutine would read on and report positions beyond its barrier.
 func (r *sreader) Checkpoint() [][]byte {
+	select {
+	case r.atCkpt <- struct{}{}:
+		select {
+		case <-r.ckptRelease:
+		case <-r.closed:
+		}
+	case <-r.closed:
+	}
 	out := make([][]byte, len(r.splits))
 	for i, s := range r.splits {
 		out[i] = recBytes(s.id, s.cursor)
@@ -325,7 +338,7 @@ func execRunner(c *hx.Case) (*hx.Result, error) {
 	kg := pint(c, "kg", 8)
 	var log, reports []string
 	nread, nrec := 0, 0
-	rd := &sreader{atRead: make(chan struct{}), cmd: make(chan [][2]int), closed: make(chan struct{}), assigned: make(chan struct{}, 4), log: &log, nread: &nread}
+	rd := &sreader{atRead: make(chan struct{}), cmd: make(chan [][2]int), closed: make(chan struct{}), assigned: make(chan struct{}, 4), atCkpt: make(chan struct{}), ckptRelease: make(chan struct{}), log: &log, nread: &nread}
 	job := &rjob{log: &log, reports: &reports, done: make(chan struct{}, 4)}
 	mu := &sync.Mutex{}
 	cond := sync.NewCond(mu)
@@ -400,6 +413,30 @@ func execRunner(c *hx.Case) (*hx.Result, error) {
 	doCkpt := func(id uint64) bool {
 		called := make(chan struct{}, 1)
 		go func() { sr.HandleStartCheckpoint(ctx, id); called <- struct{}{} }()
+		// feed empty reads until the snapshot is requested; hold it at the gate and offer one record per
+		// assigned split to a loop that is (wrongly) still reading; then let the snapshot proceed
+		to := timeout()
+	gate:
+		for {
+			select {
+			case <-rd.atRead:
+				rd.cmd <- nil
+			case <-rd.atCkpt:
+				break gate
+			case <-to:
+				return false
+			}
+		}
+		select {
+		case <-rd.atRead:
+			var probe [][2]int
+			for _, sp := range rd.splits {
+				probe = append(probe, [2]int{sp.id, 1})
+			}
+			rd.cmd <- probe
+		case <-time.After(1500 * time.Microsecond):
+		}
+		rd.ckptRelease <- struct{}{}
 		return waitFor(job.done) && waitFor(called)
 	}
 	nck, nreadsWithData := 0, 0
@@ -516,7 +553,7 @@ func execRunner(c *hx.Case) (*hx.Result, error) {
 // =====================================================================================================
 
 type top struct {
-	Kind   string  `json:"kind"` // load | add | track | remove | avail | assigned | last
+	Kind   string  `json:"kind"`             // load | add | track | remove | avail | assigned | last
 	Shards [][]int `json:"shards,omitempty"` // id, parents...
 	Ids    []int   `json:"ids,omitempty"`
 	Last   int     `json:"last,omitempty"`
